@@ -17,7 +17,10 @@ A(e) == ModelOf[e.type]
 RECURSIVE PureHist(_)
 PureHist(id) == id = 0 \/ (LET f == Trace[id] IN f.op = "add" /\ f.res.ok /\ f.fwd = NoFwd /\ PureHist(f.parent))
 
-Obs(e) == [ok |-> e.res.ok, exc |-> e.res.exc, insw |-> e.post.insw, ordw |-> e.post.ordw, text |-> e.text]
+\* pat: which insertion-order position each schema-ordered child has (0 = not among the children any more): twin
+\* histories number their children differently, the pattern is what must agree
+Pattern(s) == [j \in DOMAIN s.ord |-> IF s.ord[j] \in Range(s.ins) THEN IndexOf(s.ins, s.ord[j]) ELSE 0]
+Obs(e) == [ok |-> e.res.ok, exc |-> e.res.exc, insw |-> e.post.insw, ordw |-> e.post.ordw, text |-> e.text, pat |-> Pattern(e.post)]
 
 Sane(s) == IsPerm(s.ord, s.ins)
 EmptyState(s) == s.ins = <<>> /\ s.ord = <<>> /\ s.kids = <<>>
